@@ -52,8 +52,38 @@ def run_case(ctx, case):
                 else:
                     opname, op = G.random_op(rng, version, objs)
                     tk, ts = '-', '-'
+                batch = [op]
+                if step % 7 == 3:
+                    # a batch: a first item that may set the ID placeholder (a creating operation, or a Locate that
+                    # matches one object) followed by identifier-less items
+                    named = [x for x in objs if getattr(x, 'names', None)]
+                    first = rng.choice(('locate1', 'locate1', 'create', 'register', 'locate_all'))
+                    if first == 'locate1' and named:
+                        o1 = rng.choice(named)
+                        batch = [rig.op_locate([rig.attr(enums.AttributeType.NAME, rig.name_value(o1.names[0]))])]
+                    elif first == 'create':
+                        batch = [rig.op_create(names=['c13-b%d' % step])]
+                    elif first == 'register':
+                        batch = [rig.op_register('secret', rig.secret_data(b'c13'), rig.common_attrs(names=['c13-r%d' % step]))]
+                    else:
+                        batch = [rig.op_locate()]
+                    for _ in range(rng.choice((1, 2))):
+                        fo = rng.choice(('get', 'get_attributes', 'get_attribute_list', 'destroy', 'revoke', 'encrypt', 'mac',
+                                         'delete_attribute', 'modify_attribute'))
+                        fname, fop = G.random_op(rng, version, [], fo)
+                        # strip the identifier: an empty object list makes the generator pick a placeholder / missing id
+                        if fo == 'get':
+                            fop = rig.op_get(None)
+                        elif fo == 'get_attributes':
+                            fop = rig.op_get_attributes(None)
+                        elif fo == 'get_attribute_list':
+                            fop = rig.op_get_attribute_list(None)
+                        elif fo == 'destroy':
+                            fop = rig.op_destroy(None) if version >= (9, 9) else fop
+                        batch.append(fop)
+                    opname = 'batch:' + '+'.join(o[0].name.lower() for o in batch)
                 try:
-                    data = rig.encode_request(rig.build_request(version, [op]), version)
+                    data = rig.encode_request(rig.build_request(version, batch), version)
                     rig.decode_request(data)
                 except Exception as e:
                     ctx.count('not_wellformed')
@@ -75,6 +105,17 @@ def run_case(ctx, case):
                 rn = rig.reason_name(res.item()['status'], res.reason()) if res.item() else 'no-item'
                 ctx.cell(opname, tk, ts, '%d.%d' % version, rn)
                 ctx.count('engine_error_records_checked', 1)
+                if len(batch) > 1:
+                    ctx.count('batches_sent')
+                    for bi, it in enumerate(res.items):
+                        if it['reason'] == rig.GENERAL_FAILURE and it['status'] != 0:
+                            exc = ctx.cap.last_exc or ('unknown', '', 'unknown')
+                            bop = batch[bi][0].name.lower() if bi < len(batch) else '?'
+                            ctx.violation('batch-item:%s|%s|%s|%s' % (bop, exc[0], exc[2], logwatch.exception_digest(exc[0], exc[1])),
+                                          'item %d (%s) of a well-formed batch %s answered GENERAL_FAILURE (%s: %s in %s)'
+                                          % (bi, bop, opname, exc[0], exc[1], exc[2]),
+                                          {'version': version, 'request': data.hex(), 'ident': ident, 'step': step})
+                    continue
                 if res.reason() == rig.GENERAL_FAILURE:
                     exc = ctx.cap.last_exc or ('unknown', '', 'unknown')
                     key = '%s|%s|%s|%s' % (opname, exc[0], exc[2], logwatch.exception_digest(exc[0], exc[1]))
